@@ -439,6 +439,9 @@ class AsyncInotifyWrapper:
                             sub_paths = list(path.iterdir())
                         except (FileNotFoundError, NotADirectoryError):
                             continue
+                        # The directory itself may be a match of a glob pattern
+                        # whose loss was reported when it went away.
+                        self.change_queue.put_nowait((Change.UPDATED, path / ""))
                         for sub_path in sub_paths:
                             if sub_path.is_file():
                                 self.change_queue.put_nowait((Change.UPDATED, sub_path))
